@@ -387,6 +387,21 @@ VerifyP2(env, cap, st, n1, pf, ch) ==
                     nz |-> \A j \in 1 .. nL : uk[j] # 0]]     \* folding is defined for non-zero round challenges
 
 (***************************************************************************)
+(* batch_verify (verifier.rs:604-691).  members: the specification's       *)
+(* individual results [res, alg] in batch order; alphas: the weights drawn *)
+(* from the caller's RNG, one per instance.  The first instance whose      *)
+(* scalar computation fails (identity point, shape, capacity) fails the    *)
+(* batch with that error; otherwise one multiscalar check of the weighted  *)
+(* sum of the combined residuals.                                          *)
+(***************************************************************************)
+BatchVerdict(members, alphas) ==
+  LET early == {i \in 1 .. Len(members) : members[i].alg = << >>}
+      first == CHOOSE i \in early : \A j \in early : i <= j
+      total == SumSeq([i \in 1 .. Len(members) |-> Fmul(alphas[i], members[i].alg.mega)])
+  IN IF early # {} THEN members[first].res
+     ELSE IF total = 0 THEN "ok" ELSE "VerificationError"
+
+(***************************************************************************)
 (* The unbatched relations of C03: (a) mandatory points non-identity,      *)
 (* (b) Tres = 0, (c) Ires = 0.  The combined check is mega = Ires + r Tres.*)
 (***************************************************************************)
